@@ -1,10 +1,10 @@
 SPECIFICATION Spec
 CONSTANTS
-  Keys = {1, 2}
+  Keys = {1, 2, 3}
   Vals = {1}
-  MaxChain = 3
-  MaxWrites = 5
-  MaxReopens = 1
+  MaxChain = 2
+  MaxWrites = 6
+  MaxReopens = 2
   DevF7 = FALSE
 INVARIANTS TypeOK ReopenSeesPersisted ChainMatchesFile ChainBounded AgesOK MemoryCoversFile FilterSound
 PROPERTIES PersistIsCurrent
